@@ -10,7 +10,7 @@ Record case := mkCase {
   c_orig : dev;            (* what the controller holds as original state *)
   c_d0 : dev;              (* device at the start *)
   c_plan : list cyc;       (* cy_stall is taken from the observation (numeric part, not modelled here) *)
-  o_kind : Z;              (* 0 regulating, 1 stopped after restorePwmEnabled, 2 panic *)
+  o_kind : Z;              (* 0 regulating, 1 stopped after restorePwmEnabled, 2 panic, 3 stuck in a call (watchdog) *)
   o_cycle : Z;             (* cycle of the stop / panic; -1 when still regulating *)
   o_dev : dev;             (* device at the end *)
   o_ops : list op;         (* driver operations of the restore *)
@@ -141,6 +141,7 @@ Lemma regulates_freshb_spec c : regulates_freshb c = true <-> regulates_fresh c.
 Proof. unfold regulates_freshb, regulates_fresh. rewrite cyc_scan_spec. cbn. reflexivity. Qed.
 
 Definition holdsb1 (c : case) : bool :=
+  if o_kind c =? 3 then false else
   if o_kind c =? 2 then false
   else if o_kind c =? 1 then
     safeb (sup c) (c_orig c) (o_dev c)
@@ -219,7 +220,7 @@ Definition no_made_up_request (c : case) : Prop := req_ok c None 0 (o_cyc c).
 Definition holdsb (c : case) : bool := holdsb1 c && regulates_freshb c && last_good_datab c && no_made_up_requestb c.
 
 Definition Holds1 (c : case) : Prop :=
-  o_kind c <> 2 /\
+  o_kind c <> 3 /\ o_kind c <> 2 /\
   (o_kind c = 1 -> safe (sup c) (c_orig c) (o_dev c)
                    \/ ((attempted_last_resort (o_ops c) = true /\ mode_tried_if_needed (sup c) (c_orig c) (o_ops c) = true)
                        /\ o_lastw c = true)).
@@ -227,6 +228,9 @@ Definition Holds1 (c : case) : Prop :=
 Lemma holdsb1_spec c : holdsb1 c = true <-> Holds1 c.
 Proof.
   unfold holdsb1, Holds1.
+  destruct (o_kind c =? 3) eqn:E3; [apply Z.eqb_eq in E3; split; [discriminate|intros [H _]; congruence]|].
+  apply Z.eqb_neq in E3.
+  assert (G : forall P : Prop, (o_kind c <> 3 /\ P) <-> P) by (intros P; tauto). rewrite G. clear G.
   destruct (o_kind c =? 2) eqn:E2.
   - apply Z.eqb_eq in E2. split; [discriminate|]. intros [H _]. congruence.
   - apply Z.eqb_neq in E2.
